@@ -99,7 +99,7 @@ def run_case(ctx, n):
     return concurrent_registration_case(ctx, n)
   rng = ctx.rng('kind', n)
   long_run = rng.random() < 0.08
-  r = qcheck.run_qcase(ctx, n, ('C20',), with_queries=n % 2 == 0, long_run=long_run, n_ops=1500 if n % 500 == 7 else None, clears=True)
+  r = qcheck.run_qcase(ctx, n, ('C20',), with_queries=n % 2 == 0, long_run=long_run, n_ops=1500 if n % 500 == 7 else None, clears=True, restarts=True)
   if r is None:
     return
   res, spec, cfg = r
